@@ -203,6 +203,18 @@ class Interp:
             return True
         return bool(v)
 
+    def truth_lit(self, v):
+        """truth(v), with a test that simplifies to a literal (n <= 0 at n = 0) reported as a native bool: merge-mode
+        evaluation then visits that branch only instead of building the other one's terms at meaningless arguments"""
+        t = self.truth(v)
+        if not isinstance(t, bool):
+            ts = z3.simplify(t)
+            if z3.is_true(ts):
+                return True
+            if z3.is_false(ts):
+                return False
+        return t
+
     def decide(self, v, label=""):
         t = self.truth(v)
         if isinstance(t, bool):
@@ -370,7 +382,7 @@ class Interp:
     def ev_IfExp(self, n):
         c = self.ev(n.test)
         if self.st.merge:
-            t = self.truth(c)
+            t = self.truth_lit(c)
             if isinstance(t, bool):
                 return self.ev(n.body if t else n.orelse)
             return self.models.ite(self, t, self.ev(n.body), self.ev(n.orelse))
